@@ -136,6 +136,8 @@ type FuncTr struct {
 	astLoops   []ast.Node
 	ordOfAst   []int // contract ordinal of each source loop
 	loopWarn   []string
+	exitDef    map[*ssa.Alloc]bool // variables whose declaration is tracked for exit assertions
+	trackDef   map[*ssa.Alloc]*LoopInfo // variables declared in the body of a loop with end assertions: defined-in-this-iteration flags
 	rfLoops    []*LoopInfo
 	recvTy     types.Type
 	elemsEager map[string]bool
@@ -562,6 +564,17 @@ func loopDeclares(n ast.Node, name string) bool {
 	return false
 }
 
+func defFlag(a *ssa.Alloc) string { return fmt.Sprintf("$def_%s_%d", a.Comment, a.Pos()) }
+
+// resetDefFlags: at a loop head no body variable of the coming iteration has been declared yet
+func (ft *FuncTr) resetDefFlags(l *LoopInfo, st *State) {
+	for a, al := range ft.trackDef {
+		if al == l {
+			st.ghost[defFlag(a)] = TFalse
+		}
+	}
+}
+
 func (ft *FuncTr) loopByOrdinal(n int) *LoopInfo {
 	for _, l := range ft.loops {
 		if l.Ordinal == n {
@@ -862,6 +875,36 @@ func (ft *FuncTr) run() error {
 		for _, in := range bb.Instrs {
 			if d, ok := in.(*ssa.Defer); ok {
 				st.ghost[deferFlag(d)] = TFalse
+			}
+		}
+	}
+	// variables declared inside the body of a loop that has end assertions carry a "declared in this iteration" flag
+	ft.trackDef = map[*ssa.Alloc]*LoopInfo{}
+	for _, l := range ft.loops {
+		ls := ft.c.Loops[l.Ordinal]
+		if ls == nil || len(ls.EndAsserts) == 0 {
+			continue
+		}
+		for bb := range l.Blocks {
+			for _, in := range bb.Instrs {
+				if a, ok := in.(*ssa.Alloc); ok {
+					ft.trackDef[a] = l
+					st.ghost[defFlag(a)] = TFalse
+				}
+			}
+		}
+	}
+	if len(ft.c.Exits) > 0 {
+		// exit assertions name locals: a variable that has not been declared on a path makes the clause vacuous there
+		ft.exitDef = map[*ssa.Alloc]bool{}
+		for _, bb := range fn.Blocks {
+			for _, in := range bb.Instrs {
+				if a, ok := in.(*ssa.Alloc); ok && !ft.exitDef[a] {
+					ft.exitDef[a] = true
+					if _, tracked := ft.trackDef[a]; !tracked {
+						st.ghost[defFlag(a)] = TFalse
+					}
+				}
 			}
 		}
 	}
@@ -1252,6 +1295,7 @@ func (ft *FuncTr) block(b *ssa.BasicBlock) error {
 				ft.assume(preAt, t)
 			}
 		}
+		ft.resetDefFlags(l, st)
 		l.head = st.clone()
 	} else if l := ft.loops[b]; l != nil {
 		pre, preAt := ft.merge(b, es)
@@ -1328,6 +1372,7 @@ func (ft *FuncTr) block(b *ssa.BasicBlock) error {
 			ft.assume(preAt, ft.typeInv(st, st.locals[a], ty))
 		}
 		at = preAt
+		ft.resetDefFlags(l, st)
 		l.head = st.clone()
 		envH := ft.newEnv(st)
 		envH.loop = l
@@ -1422,6 +1467,40 @@ func (ft *FuncTr) goEdge(b, succ *ssa.BasicBlock, cond *Term, st *State) error {
 		l := ft.loops[succ]
 		if l == nil {
 			return unsupported("back edge to non-loop header")
+		}
+		if ls := ft.c.Loops[l.Ordinal]; ls != nil && len(ls.EndAsserts) > 0 {
+			env := ft.newEnv(st)
+			env.pre = l.pre
+			env.headSt = l.head
+			switch n := l.Node.(type) {
+			case *ast.ForStmt:
+				env.pos = n.Body.Rbrace
+			case *ast.RangeStmt:
+				env.pos = n.Body.Rbrace
+			}
+			for i, ea := range ls.EndAsserts {
+				var used []*ssa.Alloc
+				env.onLocal = func(a *ssa.Alloc) { used = append(used, a) }
+				t, err := env.trBool(ea.E)
+				env.onLocal = nil
+				if err != nil {
+					return fmt.Errorf("loop %d end assert[%d] (%s:%d): %v", l.Ordinal, i+1, ea.File, ea.Line, err)
+				}
+				// the assertion speaks about this iteration: it applies on the paths on which the body variables it
+				// names were declared (a `continue` before a declaration leaves the variable without a value)
+				var guard []*Term
+				seen := map[*ssa.Alloc]bool{}
+				for _, a := range used {
+					if ft.trackDef[a] == l && !seen[a] {
+						seen[a] = true
+						guard = append(guard, ft.h.ghostVar(st, defFlag(a), SBool))
+					}
+				}
+				if len(guard) > 0 {
+					t = Implies(And(guard...), t)
+				}
+				ft.assert(cond, t, fmt.Sprintf("loop%d.end[%s]", l.Ordinal, clauseID(ea, i)), "", ea.Text, token.NoPos)
+			}
 		}
 		if l.wholeHavoc {
 			ft.assert(cond, Eq(ft.h.ghostVar(st, "$held", SArray(SPtr, SInt)), l.heldEntry), fmt.Sprintf("guard.loop%d", l.Ordinal), "", "every iteration ends holding the same locks the loop was entered with", token.NoPos)
@@ -1770,6 +1849,9 @@ func (ft *FuncTr) localSV(e *SpecEnv, name string, pos token.Pos) (SV, bool) {
 	al := ft.allocByName(name, pos)
 	if al == nil {
 		return SV{}, false
+	}
+	if e.onLocal != nil {
+		e.onLocal(al)
 	}
 	ty := al.Type().(*types.Pointer).Elem()
 	v, seen := ft.vals[al]
